@@ -377,6 +377,7 @@ def check_schedules(case):
             core.metric("cases with every single pre-emption point", 1)
         core.metric("schedules per case", len(plans))
         nsw = 0
+        nplan = 0
         for rot, quanta, label in plans:
             order = list(range(rot, len(calls))) + list(range(rot))
             fresh = [P.build_args(calls[i]) for i in order]
@@ -414,6 +415,18 @@ def check_schedules(case):
             if d:
                 raise Fail("a module-level constant changed during an interleaved run", observed={"diff": d[:3], "schedule": plan},
                            bucket="constant changed (schedules)")
+            # state left behind by an interleaving: each call, run alone afterwards, must still give its reference result
+            nplan += 1
+            if sum(lines) < 400 or nplan % 8 == 0 or nplan == len(plans):
+                for i, c in enumerate(calls):
+                    fn, args = P.build_args(c)
+                    try:
+                        g = ["ok", P.canon(fn(*args))]
+                    except Exception as e:     # noqa
+                        g = ["exc", type(e).__name__, str(e)[:200]]
+                    if g != want[i]:
+                        raise Fail("%s, run alone AFTER an interleaved run, returned a different result (state left behind by the interleaving)"
+                                   % c["fn"], expected=want[i], observed={"result": g, "after_schedule": plan}, bucket="state left behind " + c["fn"])
         core.metric("thread switches per case", nsw)
     finally:
         P.restore_constants()
@@ -443,9 +456,42 @@ def _has_caller_object(call):
     return isinstance(a.get("ell"), dict) or (isinstance(a.get("trans"), dict) and "p" in a["trans"])
 
 
+def _sample(strategy, k, seed):
+    """k values of a strategy, drawn by Hypothesis itself under a fixed seed (a pure function of the strategy and the seed)."""
+    from hypothesis import given
+    got = []
+
+    def body(v):
+        got.append(v)
+    stg = settings(max_examples=k, database=None, deadline=None, derandomize=False, phases=[Phase.generate], verbosity=hypothesis.Verbosity.quiet,
+                   suppress_health_check=list(HealthCheck), print_blob=False)
+    hypothesis.seed(seed)(stg(given(strategy)(body)))()
+    return got[:k]
+
+
+def enumerate_functions(tier, seed, shard, nshards):
+    """Every entry of the catalogue's function axis (P.function_axis: each module-level angle function, each operator / method of
+    each angle class, each coordinate-object operation, each other entry point) gets pair cases of its own in every run."""
+    _setup()
+    k = 3 if tier == "quick" else 10
+    for idx, (label, strat) in enumerate(P.function_axis()):
+        if idx % nshards != shard:
+            continue
+        calls = _sample(strat, k, seed * 7919 + idx)
+        if len(calls) < 2:
+            continue
+        lab = label or calls[0]["fn"]
+        pairs = [(calls[-1], calls[-2])] if tier == "quick" else [(calls[i], calls[i + 1]) for i in range(1, len(calls) - 1, 2)]
+        for a, b in pairs:
+            yield {"calls": [a, b], "budget": 40 if tier == "quick" else 160, "axis": lab}
+        yield {"calls": [calls[-1], copy.deepcopy(calls[-1])], "budget": 24, "axis": lab, "shared": _has_caller_object(calls[-1])}
+
+
 def _classes_sched(case):
     cs = case["calls"]
     out = ["threads:%d" % len(cs)]
+    if case.get("axis"):
+        out.append("axis:" + case["axis"].split(":")[0])
     names = sorted({c["fn"] for c in cs})
     out.append("same entry point" if len(names) == 1 else "different entry points")
     if all(repr(jsonable(c)) == repr(jsonable(cs[0])) for c in cs):
@@ -468,17 +514,24 @@ SUBCHECKS = [
 ]
 SUBCHECKS += [
     SubCheck("owned_schedules", check_schedules, strategy=_schedule_cases(60), nontrivial=lambda c: True, classes=_classes_sched,
-             quick=72, thorough=2400, shards_quick=8, shards_thorough=48, setup=_setup,
+             quick=48, thorough=2400, shards_quick=8, shards_thorough=48, setup=_setup,
              rule="2..3 calls (a family of one entry point sharing part of its arguments / two arbitrary calls / the same call twice) run in "
                   "one thread each under a schedule the harness owns (sys.monitoring LINE events of the library's files: a thread "
                   "loses the baton only where the plan says): alternation after every 1, 2, 3, 7 library lines, and every call pre-empted "
                   "once (and twice) at a stratified sample of its library lines - about 60 schedules per case; each result bit-identical "
                   "to a process that made no other call; constants, write barrier and arguments as in the other sub-checks"),
     SubCheck("owned_schedules_shared_arguments", check_schedules, strategy=_schedule_cases(24, shared_only=True), nontrivial=lambda c: True,
-             classes=_classes_sched, quick=128, thorough=4000, shards_quick=8, shards_thorough=48, setup=_setup,
+             classes=_classes_sched, quick=96, thorough=4000, shards_quick=8, shards_thorough=48, setup=_setup,
              rule="one call that is handed something the caller made (array, list, angle / coordinate / grid object, own parameter set or "
                   "ellipsoid) runs in two threads on the VERY SAME argument objects under about 24 owned schedules: a function that modifies "
                   "an argument and restores it before returning passes every sequential comparison and fails here"),
+    SubCheck("owned_schedules_every_function", check_schedules, enumerate=enumerate_functions, nontrivial=lambda c: True, classes=_classes_sched,
+             shards_quick=16, shards_thorough=48, setup=_setup,
+             rule="enumeration along the catalogue's FUNCTION axis (each of the 21 module-level angle functions, 29 operators / methods x 5 angle "
+                  "classes, vectorised functions x array layouts, coordinate-object operations, and every other entry point: about 290 entries): "
+                  "per entry one pair of calls with different arguments and one call twice (on shared argument objects where the caller made "
+                  "any), arguments drawn by Hypothesis under the run's seed; 24-40 owned schedules each (160 in the thorough tier); after "
+                  "interleaved runs every call is run alone again and must still give its reference result"),
     SubCheck("owned_schedules_complete", check_schedules, strategy=_schedule_cases(1500), nontrivial=lambda c: True, classes=_classes_sched,
              quick=18, thorough=960, shards_quick=6, shards_thorough=48, setup=_setup,
              rule="the same with up to 1500 schedules per case: EVERY single pre-emption point of every call whose solo run takes fewer "
